@@ -202,6 +202,10 @@ func runC08(c *bx.Ctx) {
 	for l := 0; l <= 8; l++ {
 		add("app-name-4", fmt.Sprintf("name of %d octets", l), &rtcp.ApplicationDefined{SubType: 1, SSRC: 2, Name: strings.Repeat("n", l), Data: []byte{1, 2, 3, 4}}, l != 4)
 	}
+	// APP names are four OCTETS, whatever they mean as text
+	for _, nm := range []string{"\xc3\xb1ab", "\xc3\xb1abc", "\xe2\x82\xaca", "\xc3\xa9\xc3\xa9\xc3\xa9\xc3\xa9", "\xf0\x9f\x98\x80", "\xf0\x9f\x98\x80a", "\x00\x00\x00\x00", "\xff\xfe\xfd\xfc", "ab\x00"} {
+		add("app-name-4", fmt.Sprintf("name %q (%d octets)", nm, len(nm)), &rtcp.ApplicationDefined{SubType: 1, SSRC: 2, Name: nm, Data: []byte{1, 2, 3, 4}}, len(nm) != 4)
+	}
 	// SDES item type 0
 	for pos := 0; pos < 3; pos++ {
 		items := []rtcp.SourceDescriptionItem{{Type: 1, Text: "a"}, {Type: 2, Text: "bb"}, {Type: 3, Text: "ccc"}}
@@ -352,7 +356,8 @@ func runC08(c *bx.Ctx) {
 		}
 	}
 	// NACK / SLI list sizes: either an error, or bytes that represent every entry
-	for _, n := range []int{1, 252, 253, 254, 255, 256, 257} {
+	// (more than 65533 entries cannot be expressed by the 16-bit length field: an error is required)
+	for _, n := range []int{1, 252, 253, 254, 255, 256, 257, 16382, 16383, 65532, 65533, 65534, 65535, 65536, 65537, 131070} {
 		if !c.Mine() {
 			continue
 		}
@@ -364,6 +369,12 @@ func runC08(c *bx.Ctx) {
 		c.T(1)
 		if pan != "" {
 			c.Report("C08/nack-list/panic", "TransportLayerNack.Marshal panics", bx.Replay{Entry: "Marshal", Ops: fmt.Sprint(n, " pairs"), Expected: "bytes or error", Observed: pan})
+		} else if n > 65533 {
+			if err == nil {
+				c.Report("C08/nack-list/over-limit-accepted", "TransportLayerNack.Marshal accepts more pairs than the length field can express", bx.Replay{Entry: "Marshal", Ops: fmt.Sprint(n, " pairs"), Expected: "error", Observed: bx.Short(b)})
+			} else {
+				c.NT()
+			}
 		} else if err == nil {
 			w, rerr := ref.Encode(nk, opt)
 			if rerr != nil || !bytes.Equal(w.B, b) {
@@ -375,7 +386,7 @@ func runC08(c *bx.Ctx) {
 			c.NT()
 		}
 	}
-	for _, n := range []int{1, 252, 253, 254, 255, 256, 257} {
+	for _, n := range []int{1, 252, 253, 254, 255, 256, 257, 16382, 16383, 65532, 65533, 65534, 65535, 65536, 65537, 131070} {
 		if !c.Mine() {
 			continue
 		}
@@ -388,6 +399,8 @@ func runC08(c *bx.Ctx) {
 		switch {
 		case pan != "":
 			c.Report("C08/sli-list/panic", "SliceLossIndication.Marshal panics", bx.Replay{Entry: "Marshal", Ops: fmt.Sprint(n, " entries"), Expected: "bytes or error", Observed: pan})
+		case n > 65533 && err == nil:
+			c.Report("C08/sli-list/over-limit-accepted", "SliceLossIndication.Marshal accepts more entries than the length field can express", bx.Replay{Entry: "Marshal", Ops: fmt.Sprint(n, " entries"), Expected: "error", Observed: bx.Short(b)})
 		case err == nil && len(b) != 12+4*n:
 			c.Report("C08/sli-list/truncated", "SliceLossIndication.Marshal succeeds but does not emit every entry", bx.Replay{Entry: "Marshal", Ops: fmt.Sprint(n, " entries"), Expected: fmt.Sprint(12+4*n, " octets"), Observed: fmt.Sprint(len(b))})
 		default:
